@@ -1,6 +1,7 @@
 import Percival.Proofs.EventsC05Loop
 import Percival.Proofs.TimerQueue
 import Percival.Proofs.EventsStep
+import Percival.Proofs.EventsAns
 import Percival.Proofs.EventsC04Run
 /-!
 # C05 — event loop: dispatch order, progress and status propagation
@@ -322,5 +323,75 @@ theorem model_lines_accepted_both (prog : List Top) : acceptsLines true true {} 
     | error e => rw [hr] at h; cases h
 
 example : acceptsLines true true {} [[.op (.regImm 1 0) .ok], [.runBegin, .cb 1, .cbEnd 0, .ret 0]] = true := by decide
+
+/-! ## The monitor reads what the model prints
+
+The typed output of a line of `pmodel events` is its list of events, and that list is what
+`model_lines_accepted_C05` feeds to the monitor (there is no projection in between).  `Driver/Events.step` prints
+`showEvs evs ++ " | " ++ l2 state`, where `showEvs evs` is the tokens `Events.evToks evs` (one per event, `ok` if there
+is none) joined by single spaces; `Driver/Eventsmon.parseLine` is the reader `pmodel eventsmon` applies to the tokens
+of the part before ` | `.  `Proofs/EventsAns.lean`: the `:`-separated fields of an event, the `,` / `/`-separated poll
+array, the `rweh` bit strings, numbers and words — everything between the typed events and the token list. -/
+
+open Percival.Proofs.EventsAns in
+/-- **For every list of events, reading the L1 tokens printed for it gives back the list** (in particular every
+single event is read back from its token), and cutting the L1 part of the printed line at the spaces gives back exactly
+these tokens (no token contains a space).  Not covered: that `Driver/Loop.loopMon` cuts the line with
+`String.splitOn " "` (a different splitting function than the `String.split ' '` of the statement) and that
+`tools/vlib.py` cuts at ` | `; `KAT/EventsAns.lean` tests these on an event of every shape. -/
+theorem monitor_reads_printed_answer (evs : List Ev) :
+    Driver.Eventsmon.parseLine (Driver.Events.evToks evs) = some evs ∧
+    (∀ e, Driver.Events.parseEv (Driver.Events.showEv e) = some e) ∧
+    Driver.Events.splitCh ' ' (Driver.Events.showEvs evs) = Driver.Events.evToks evs ∧
+    Driver.Events.showEvs evs = " ".intercalate (Driver.Events.evToks evs) :=
+  ⟨parseLine_evToks evs, parseEv_showEv, split_l1 evs, rfl⟩
+
+/-- the tokens of a real line -/
+example : Driver.Events.evToks [.op (.regNet 1 3 .rd) .eexist,
+      .poll (-1) 500 [⟨3, { r := true, w := true }, { e := true }⟩, ⟨4, {}, {}⟩] .intr, .cb 1, .cbEnd (-1), .ret 7] =
+    ["rn:1:3:r:eexist", "poll:-1:500:3/rw/e,4/-/-:intr", "cb:1", "end:-1", "ret:7"] ∧
+    Driver.Events.evToks [] = ["ok"] := by decide +kernel
+
+open Percival.Proofs.EventsAns in
+/-- **Every case, at the level of the text the two executables exchange** (C05 monitor).  For every list of input
+lines (token lists) that `pmodel events` can read, `prog` being what it reads: the lines it prints (`printed`:
+`Driver/Events.step` along the case) are the tokens `evToks` of the events of `runOps`, joined by spaces, followed by
+` | ` and the L2 text of the state; and **`Driver/Eventsmon.step` — the whole function `pmodel eventsmon c05` applies to
+(operation line, answer line) — run along the case on the L1 tokens the model prints, answers `ok` on every line**. -/
+theorem monitor_accepts_printed_run (lines : List (List String)) (prog : List Top)
+    (hp : lines.mapM Driver.Events.parseTop = some prog) :
+    printed {} lines =
+      List.zipWith (fun evs st => Driver.Events.showEvs evs ++ " | " ++ Driver.Events.l2 st)
+        (runOps {} prog).2 (statesAfter {} prog) ∧
+    verdicts false true {} (lines.zip ((runOps {} prog).2.map Driver.Events.evToks)) =
+      List.replicate lines.length "ok" :=
+  ⟨printed_eq lines prog {} hp,
+   verdicts_ok false true lines _ {} ((mapM_length _ lines prog hp).trans (runOps_length prog {}).symm) (model_lines_accepted_C05 prog)⟩
+
+open Percival.Proofs.EventsAns in
+/-- **Every case, at the level of the text the two executables exchange** (both monitors at once).  For every list of input
+lines (token lists) that `pmodel events` can read, `prog` being what it reads: the lines it prints (`printed`:
+`Driver/Events.step` along the case) are the tokens `evToks` of the events of `runOps`, joined by spaces, followed by
+` | ` and the L2 text of the state; and **`Driver/Eventsmon.step` — the whole function `pmodel eventsmon` applies to
+(operation line, answer line) — run along the case on the L1 tokens the model prints, answers `ok` on every line**. -/
+theorem monitor_accepts_printed_run_both (lines : List (List String)) (prog : List Top)
+    (hp : lines.mapM Driver.Events.parseTop = some prog) :
+    printed {} lines =
+      List.zipWith (fun evs st => Driver.Events.showEvs evs ++ " | " ++ Driver.Events.l2 st)
+        (runOps {} prog).2 (statesAfter {} prog) ∧
+    verdicts true true {} (lines.zip ((runOps {} prog).2.map Driver.Events.evToks)) =
+      List.replicate lines.length "ok" :=
+  ⟨printed_eq lines prog {} hp,
+   verdicts_ok true true lines _ {} ((mapM_length _ lines prog hp).trans (runOps_length prog {}).symm) (model_lines_accepted_both prog)⟩
+
+/-- input lines that are read as a program: a registration, a poll answer, a run -/
+example : [["reg_imm", toString (1 : Nat), toString (0 : Nat)], ["pollintr", toString (5 : Nat)], ["run"]].mapM
+      Driver.Events.parseTop = some [.api (.regImm 1 0), .pollAns (.eintr 5), .run] := by
+  simp only [List.mapM_cons, List.mapM_nil, Driver.Events.parseTop, Proofs.DsAns.nat_rt]
+  rfl
+/-- the monitor executable does reject printed text: a return value no callback produced -/
+example : (Driver.Eventsmon.step false true {} ["run"] (Driver.Events.evToks [.runBegin, .ret 5])).2 =
+    "bad C05: returned 5 although no callback returned a non-zero status" := by
+  rw [Proofs.EventsAns.step_evToks]; decide +kernel
 
 end Percival.C05
